@@ -84,6 +84,8 @@ void clear_values();
 // same effect as compiling with a smaller Decompressor::input_buffer_size (needs clamp.cpp + wraps_clamp.txt)
 void set_decomp_clamp(size_t bytes);
 size_t decomp_clamp();
+// C12 (simmap.cpp): every (re)mapping lands at a fresh address; the n-th fstatvfs reports a full disk (-1 = never)
+void set_map_policy(bool move_always, int no_space_at);
 // compressor failure: the n-th call (0-based) of compress2() in this run returns Z_MEM_ERROR (-1 = off)
 void set_compress_fail_at(int call);
 int compress_fail_at();
